@@ -242,7 +242,9 @@ static void do_seek(FObj* f, int64_t off, int64_t org, int fault) {
   int64_t target;
   size_t size = f->open ? m->size : 0;
   /* unflushed writes may extend the file: the model size already includes them */
-  if (f->open && f->mode == M_A) return;      /* where an append stream "is" between writes is the C library's business */
+  /* an append stream may be repositioned too (every later write still lands at the end, and stell after that write must say so);
+   * where it "is" between the seek and the next write is the C library's business: do_tell skips it until then */
+  if (f->open && f->mode == M_A) origin = SEEK_SET;
   uint64_t u = (uint64_t)(off < 0 ? -off : off);
   target = (int64_t)(size ? u % (size + 1) : 0);
   int64_t arg = origin == SEEK_SET ? target : origin == SEEK_CUR ? target - (int64_t)f->pos : target - (int64_t)size;
@@ -256,6 +258,7 @@ static void do_seek(FObj* f, int64_t off, int64_t org, int fault) {
   if (ex) FV("C20:seek-raised", "sseek(%lld, %d) within the file raised %s", (long long)arg, origin, exc_name(ex));
   f->pos = (size_t)target; f->eof = 0; f->lastdir = 0;
   stat_add("file.seek", 1);
+  if (f->mode == M_A) stat_add("file.seek_on_append_stream", 1);
   { char k[32]; snprintf(k, sizeof k, "file.seek_origin%d", origin); stat_add(k, 1); }
 }
 
